@@ -445,9 +445,9 @@ pub fn run(ctx: &Ctx) {
     lap("copy");
     ctx.run_prop("write-read", ctx.cases(200, 8_000), case_of(tree_with_files(5, big), prop_oneof![op_write(big), op_read()], 6), f);
     lap("write-read");
-    ctx.run_prop("remove_dir_all", ctx.cases(120, 6_000), case_of(tree(12, max_many, 1, 5000), op_rda(), 3), f);
+    ctx.run_prop("remove_dir_all", ctx.cases(100, 6_000), case_of(tree(12, max_many, 1, 5000), op_rda(), 3), f);
     lap("remove_dir_all");
-    ctx.run_prop("readdir", ctx.cases(100, 5_000), case_of(tree(8, max_many, 2, 5000), op_readdir(), 3), f);
+    ctx.run_prop("readdir", ctx.cases(80, 5_000), case_of(tree(8, max_many, 2, 5000), op_readdir(), 3), f);
     lap("readdir");
     ctx.run_prop("rename-misc", ctx.cases(250, 12_000), case_of(tree(10, 40, 1, 5000), op_misc(), 8), f);
     lap("rename-misc");
